@@ -237,6 +237,9 @@ impl Generator {
             })
             .collect_vec();
 
+        // a name that is (also) defined in the start directory is not missing there
+        bins_not_in_relpath.retain(|name| !bins.iter().any(|(_, module)| &module.name == *name));
+
         if !bins_not_in_relpath.is_empty() {
             return Err(anyhow!(format!(
                 "the following binaries are not defined in the current directory: {}",
